@@ -5,6 +5,11 @@ import cxx2c, cbmcrun, bvspec
 from jast import ExtractionError
 
 
+def has_loop_contracts(unit):
+    """real loop contracts (invariants), as opposed to ghost statements at the start / end of a loop body"""
+    return any(isinstance(k, int) for lc in (unit.loop_contracts or {}).values() for k in lc)
+
+
 class BVUnit:
     back_end = "BV"
 
@@ -155,7 +160,7 @@ def run_bv(tu, unit, workdir):
     except ExtractionError as e:
         return dict(unit=unit, status="undecided", reason="extraction: %s" % e, obligations=0, discharged=0, failed=[], wall_s=time.time() - t0, log=str(e))
     res = cbmcrun.run(cfile, workdir, unit.name(), "jpv_harness", enforce=wname, replace=repl,
-                      loop_contracts=bool(unit.loop_contracts), unwind=unit.unwind, timeout=unit.timeout,
+                      loop_contracts=has_loop_contracts(unit), unwind=unit.unwind, timeout=unit.timeout,
                       extra=unit.extra, defines=unit.defines, checks=unit.checks, solver=unit.solver, unwindset=unit.unwindset)
     res["unit"] = unit
     res["cfile"] = cfile
@@ -174,7 +179,7 @@ def run_bv(tu, unit, workdir):
                 raise ExtractionError("canary pattern not in ensures")
             cfile2, wname2, repl2, _ = build_bv(tu, BVUnitClone(unit, unit.name() + "_canary"), workdir, c[:k] + c[k:].replace(old, new, 1))
             r2 = cbmcrun.run(cfile2, workdir, unit.name() + "_canary", "jpv_harness", enforce=wname2, replace=repl2,
-                             loop_contracts=bool(unit.loop_contracts), unwind=unit.unwind, timeout=unit.timeout,
+                             loop_contracts=has_loop_contracts(unit), unwind=unit.unwind, timeout=unit.timeout,
                              extra=unit.extra, defines=unit.defines, checks=False, solver=unit.solver, unwindset=unit.unwindset)
         except ExtractionError as e:
             r2 = dict(status="undecided", reason=str(e), wall_s=0)
